@@ -112,21 +112,25 @@ class SQLExecutor(object):
 
         return self
 
-    def __exit__(self, *args, **kwargs):
+    def __exit__(self, exc_type=None, exc_value=None, traceback=None):
         """Exit the context manager.
 
-        This will commit any transaction that may be in progress, close the
+        This will commit any transaction that may be in progress (or roll it
+        back, if the context is being exited due to an exception), close the
         database cursor, and re-enable constraint checking if it were
         previously disabled.
 
         Args:
-            *args (tuple, unused):
-                Unused positional arguments.
+            exc_type (type, optional):
+                The type of the exception that was raised, if any.
 
-            **kwargs (dict, unused):
-                Unused keyword arguments.
+            exc_value (Exception, optional):
+                The exception that was raised, if any.
+
+            traceback (traceback, optional):
+                The traceback for the exception, if any.
         """
-        self.finish_transaction()
+        self.finish_transaction(exc_type, exc_value, traceback)
 
         self._cursor.close()
         self._cursor = None
@@ -154,13 +158,28 @@ class SQLExecutor(object):
         if not self._latest_transaction:
             self.new_transaction()
 
-    def finish_transaction(self):
-        """Finish and commit a transaction."""
+    def finish_transaction(self, exc_type=None, exc_value=None,
+                           traceback=None):
+        """Finish a transaction.
+
+        The transaction will be committed, unless exception information is
+        provided, in which case it will be rolled back.
+
+        Args:
+            exc_type (type, optional):
+                The type of the exception that is ending the transaction.
+
+            exc_value (Exception, optional):
+                The exception that is ending the transaction.
+
+            traceback (traceback, optional):
+                The traceback for the exception.
+        """
         transaction = self._latest_transaction
 
         if transaction:
-            transaction.__exit__(None, None, None)
             self._latest_transaction = None
+            transaction.__exit__(exc_type, exc_value, traceback)
 
     def run_sql(self, sql, capture=False, execute=False):
         """Run (execute and/or capture) a list of SQL statements.
